@@ -235,8 +235,10 @@ Fixpoint drain_node (fuel : nat) (cl : cluster) (i : nat) : cluster * list eobs 
       (fst r', (snd r ++ snd r')%list)
     end
   end.
+(* more than any log the harness builds in one step *)
+Definition drain_fuel : nat := 4000.
 Definition drain_all (cl : cluster) : cluster * list eobs :=
-  fold_left (fun acc i => let r := drain_node 4000 (fst acc) i in (fst r, (snd acc ++ snd r)%list))
+  fold_left (fun acc i => let r := drain_node drain_fuel (fst acc) i in (fst r, (snd acc ++ snd r)%list))
             (seq 0 (length (cl_nodes cl))) (cl, []).
 
 (** ** sessions *)
